@@ -1,9 +1,9 @@
 SPECIFICATION SpecEnum
 CONSTANTS
-  Layouts <- LayoutsPlain
-  N = 4
-  Sizes = {2, 40000}
-  LinkOpts <- LO_enum4
+  Layouts <- LayoutsFF3
+  N = 3
+  Sizes = {2, 4}
+  LinkOpts <- LO_ff
   MaxCopies = 0
 INVARIANT CaseDump
 CHECK_DEADLOCK FALSE
